@@ -195,7 +195,10 @@ def decodeSolbWith (cfg : Cfg) (n : Nat) (bs : Bytes) : Except Status (Nat × Li
 def scalarIdleIterations (cfg : Cfg) (n : Nat) (bs : Bytes) : Int :=
   match scalarPlan cfg n bs with
   | .error _ => 0
-  | .ok (_, _, nnode, ldim, _) => if ldim = 0 then nnode else 0
+  | .ok (_, _, nnode, ldim, _) =>
+    -- 54a1e7c (`checkFields`): `if (0 == *ldim) nnode_read = nnode;` — the loop is skipped.  (In the model the
+    -- zero-width loop only advances its counter, so the decoded result is the same with and without the fix.)
+    if ldim = 0 ∧ ¬ cfg.checkFields then nnode else 0
 
 /-- bytes requested (and initialised) for the data block before a single value is read; 0 if the
     reader stops earlier -/
